@@ -70,7 +70,18 @@ def action(h):
                 return "(AExit %s)" % L.Z(a[0].value)
             return "AUnknown"
     if any(n.endswith("skipped.append") for n in names) and any(n.endswith("new_files_list.remove") for n in names):
-        return "ASkip"
+        reason = None
+        for s in h.body:
+            for n in ast.walk(s):
+                if isinstance(n, ast.Call) and dotted(n.func).endswith("skipped.append") and n.args and isinstance(n.args[0], ast.Tuple) and len(n.args[0].elts) == 2:
+                    r = n.args[0].elts[1]
+                    if isinstance(r, ast.Constant) and isinstance(r.value, str):
+                        reason = r.value
+                    else:
+                        reason = "<" + dotted(r) + ">"
+        if reason is None:
+            return "AUnknown"
+        return "(ASkip %s)" % L.pstr(reason)
     if all(isinstance(s, ast.Pass) for s in h.body):
         return "APass"
     if any(n.endswith("report_error") or n.startswith("LOG.") for n in names):
